@@ -49,6 +49,9 @@ type Step struct {
 	Suffix  string `json:"suffix,omitempty"`
 	Version uint64 `json:"version,omitempty"`
 	Expired bool   `json:"expired,omitempty"`
+	// Deactivate (real handler only): the submission for an already created suffix is a deactivate request instead of
+	// an update; operations for the suffix keep arriving behind it - the batching layer treats all types alike
+	Deactivate bool `json:"deactivate,omitempty"`
 	// TimeOffset: with ViaHandler the submission reaches the document handler with version time Version + TimeOffset
 	// (a time inside that protocol version, not its genesis time)
 	TimeOffset uint64 `json:"timeOffset,omitempty"`
@@ -171,6 +174,7 @@ type world struct {
 
 type suffixKeys struct {
 	suffix string
+	rec    *keys.Key
 	upd    *keys.Key
 	n      int
 }
@@ -229,6 +233,7 @@ func (a anchorWriter) WriteAnchor(anchor string, _ []*protocol.AnchorDocument, r
 		referenced[r.UniqueSuffix] = true
 	}
 	var tail []*mop
+	anchoredSuffix := map[string]bool{}
 	for _, m := range w.inflight {
 		switch {
 		case exp[string(m.req)]:
@@ -243,7 +248,12 @@ func (a anchorWriter) WriteAnchor(anchor string, _ []*protocol.AnchorDocument, r
 		case !referenced[m.suffix]:
 			// neither anchored (no operation reference for its suffix) nor deferred nor expired: it left the queue for good
 			w.fail("operation %s of the cut batch is neither among the anchored operation references nor deferred nor reported as expired: it is lost (anchored in 0 batches)", name(m))
+		case anchoredSuffix[m.suffix]:
+			// the one operation reference of the suffix stands for the first operation of the cut batch; a further one
+			// that is neither deferred nor reported as expired has left the queue without being anchored
+			w.fail("operation %s of the cut batch shares its suffix with an earlier operation of the batch and is neither deferred nor reported as expired: it is lost (anchored in 0 batches)", name(m))
 		default:
+			anchoredSuffix[m.suffix] = true
 			w.anchor[m.id]++
 		}
 	}
@@ -312,7 +322,7 @@ func (h handler) PrepareTxnFiles(ops []*operation.QueuedOperation) (*protocol.An
 		if m.version != h.version {
 			w.fail("operation %s queued under protocol version %d is processed in a batch of version %d (batch versions: %s)", m.id, m.version, h.version, versionsOf(w, ops))
 		}
-		if o.UniqueSuffix != m.suffix || string(o.Type) != "update" && string(o.Type) != "create" {
+		if o.UniqueSuffix != m.suffix || string(o.Type) != "update" && string(o.Type) != "create" && string(o.Type) != "deactivate" {
 			w.fail("queued operation %s lost its suffix/type in the batch: %s %s", m.id, o.Type, o.UniqueSuffix)
 		}
 	}
@@ -443,8 +453,14 @@ func (w *world) request(s Step, id string) (operation.Type, []byte, string) {
 	if !ok {
 		rec, upd := keys.Get(keys.Ed25519, "c16-"+s.Suffix, 0), keys.Get(keys.Ed25519, "c16-"+s.Suffix, 1)
 		cr := hist.NewCreate(hist.CreateSpec{Name: "create", Code: asm.SHA256, Recovery: rec, Update: upd, Markers: map[string]interface{}{"s": s.Suffix}})
-		w.pool[s.Suffix] = &suffixKeys{suffix: cr.Suffix, upd: upd}
+		w.pool[s.Suffix] = &suffixKeys{suffix: cr.Suffix, rec: rec, upd: upd}
 		return operation.TypeCreate, cr.Request, cr.Suffix
+	}
+	if s.Deactivate && !s.Expired {
+		// every request is told apart by its bytes: a signed window (open at every time used here) that differs per request
+		sk.n++
+		d := hist.NewSigned(hist.SignedSpec{Name: "deactivate", Type: "deactivate", Suffix: sk.suffix, Code: asm.SHA256, Reveal: sk.rec, Opt: hist.Opt{From: 1, Until: 1<<41 + int64(sk.n)}})
+		return operation.TypeDeactivate, d.Request, sk.suffix
 	}
 	sk.n++
 	next := keys.Get(keys.Ed25519, "c16-"+s.Suffix, 1+sk.n)
@@ -621,12 +637,14 @@ func drawAdd(t *rapid.T, curVersion *int) Step {
 	st := Step{Action: "add", Suffix: rapid.SampledFrom([]string{"a", "b", "c", "d", "e"}).Draw(t, "suffix"), Version: v, Expired: rapid.IntRange(0, 9).Draw(t, "expired") == 0}
 	if viaHandlerGen {
 		st.TimeOffset = uint64(rapid.IntRange(0, 9).Draw(t, "timeOffset"))
+	} else if rapid.IntRange(0, 4).Draw(t, "deactivate") == 0 {
+		st.Deactivate = true
 	}
 	return st
 }
 
 func TestWriterStateMachine(t *testing.T) {
-	ev.Rule(chkSM, "rapid schedules of 5-40 steps over a real batch.Writer (never started; one processing step at a time through the verif hook; fault plans may stop it while a batch is in flight, after which a new writer over the same queue takes over), real BatchCutter and MemQueue, maxOperationCount 1-4 (in half of the schedules a different one per version, with the current version advancing while the writer runs: 'upgrade' steps), protocol versions {0, 10, 20}: Add(operation for suffix a..e under a version, optionally flagged expired), monitor tick, timeout tick, each tick with a fault plan per cut batch (handler/CAS failure - for the real OperationHandler the k-th CAS write -, anchor-write failure) and submissions arriving while the batch is in flight; handler = deterministic stub of the first-per-suffix / deferred / expired contract, or the real txnprovider.OperationHandler over a fault-injecting CAS (then, in half of the schedules, submissions enter through a real DocumentHandler with a version time inside the protocol version rather than its genesis time); oracle (driven by observations - every PrepareTxnFiles call reveals the cut batch): prefix of the model queue, one version, size <= the maximum operation count of the batch's own protocol version (the version its operations were queued under, which need not be the current one), smaller only on a timeout tick or at a version boundary; after every step the real queue equals the model (failed batch back at the head in order, in-flight additions behind it, deferred operations at the tail) and accepted = queue + anchored + expired with no operation anchored twice; at quiescence every accepted non-expired operation is in exactly one anchored batch; non-trivial = a failed batch followed by a successful one, or a deferred operation, or a version boundary inside the queue")
+	ev.Rule(chkSM, "rapid schedules of 5-40 steps over a real batch.Writer (never started; one processing step at a time through the verif hook; fault plans may stop it while a batch is in flight, after which a new writer over the same queue takes over), real BatchCutter and MemQueue, maxOperationCount 1-4 (in half of the schedules a different one per version, with the current version advancing while the writer runs: 'upgrade' steps), protocol versions {0, 10, 20}: Add(operation for suffix a..e under a version, optionally flagged expired; with the real handler the first one per suffix is a create, later ones updates or - one in five - a deactivate, behind which further operations for the suffix keep arriving), monitor tick, timeout tick, each tick with a fault plan per cut batch (handler/CAS failure - for the real OperationHandler the k-th CAS write -, anchor-write failure) and submissions arriving while the batch is in flight; handler = deterministic stub of the first-per-suffix / deferred / expired contract, or the real txnprovider.OperationHandler over a fault-injecting CAS (then, in half of the schedules, submissions enter through a real DocumentHandler with a version time inside the protocol version rather than its genesis time); oracle (driven by observations - every PrepareTxnFiles call reveals the cut batch): prefix of the model queue, one version, size <= the maximum operation count of the batch's own protocol version (the version its operations were queued under, which need not be the current one), smaller only on a timeout tick or at a version boundary; after every step the real queue equals the model (failed batch back at the head in order, in-flight additions behind it, deferred operations at the tail) and accepted = queue + anchored + expired with no operation anchored twice; at quiescence every accepted non-expired operation is in exactly one anchored batch; non-trivial = a failed batch followed by a successful one, or a deferred operation, or a version boundary inside the queue")
 	ev.Rapid(t, chkSM, 400, 8000, func(t *rapid.T) {
 		c := &Case{Max: uint(rapid.IntRange(1, 4).Draw(t, "max")), Handler: rapid.SampledFrom([]string{"stub", "stub", "real"}).Draw(t, "handler")}
 		cur := 0
